@@ -140,12 +140,9 @@ def build(run: Run):
     keys = opcode_contracts(run)
     only = os.environ.get("VERIF_ONLY")
     zero_normal = []
-    for cls, key in keys:
-        if only and only not in key:
-            continue
-        r = run.verify(key)
+    for r in run.verify_batch([key for cls, key in keys if not (only and only not in key)]):
         if r.normal_paths == 0:
-            zero_normal.append(key)
+            zero_normal.append(r.qual)
     run.notes["opcode_classes"] = len(run.repo.live["OPCODES_BY_NAME"])
     run.notes["runs_with_no_normal_exit (refuse)"] = zero_normal
     run.assumptions += [
